@@ -213,7 +213,7 @@ class Scenario:
         # everything else that is handed a &mut to a tracked local may change it
         known_pure = re.search(IDENT, callee) or last in ("eq", "ne", "len", "is_empty", "from_utf8", "strip_suffix", "strip_prefix", "map_err", "ok",
                                                             "branch", "from_residual", "poll", "new_unchecked", "get_context", "from_str_radix", "parse",
-                                                            "ok_or", "ok_or_else", "is_some", "is_none", "is_ok", "is_err", "unwrap_or")
+                                                            "ok_or", "ok_or_else", "is_some", "is_none", "is_ok", "is_err", "unwrap_or", "and_then", "map", "filter", "cloned", "copied", "as_deref", "map_or")
         if not known_pure and not (resolved in self.prog.bodies):
             for a, ty in zip(args, t.get("arg_tys", [])):
                 if ty.startswith("&mut") and a is not None and a[0] == "ref":
@@ -249,6 +249,12 @@ class Scenario:
             return ("variant", "Some", a0[2]) if a0[1] == "Ok" else ("variant", "None", None)
         if last in ("ok_or", "ok_or_else") and a0 is not None and a0[0] == "variant":
             return ("variant", "Ok", a0[2]) if a0[1] == "Some" else ("variant", "Err", None)
+        if last in ("and_then", "map", "filter", "or", "zip", "cloned", "copied", "as_deref") and a0 is not None and a0[0] == "variant" and a0[1] in ("None", "Err") and last != "or":
+            return ("variant", a0[1], None)
+        if last == "map_or" and a0 is not None and a0[0] == "variant" and a0[1] in ("None", "Err") and len(dv) > 1:
+            return dv[1]
+        if last == "unwrap_or" and a0 is not None and a0[0] == "variant" and len(dv) > 1:
+            return dv[1] if a0[1] in ("None", "Err") else a0[2]
         if last in ("is_some", "is_ok") and a0 is not None and a0[0] == "variant":
             return ("bool", a0[1] in ("Some", "Ok"))
         if last in ("is_none", "is_err") and a0 is not None and a0[0] == "variant":
